@@ -259,10 +259,11 @@ def check(prop, tier, seed):
     elif not hok:
         b_mis.append(dict(op="<harness build>", impl=herr[:800], model=""))
     # enlarged oracle search when a proof obligation or the correspondence broke and nothing concrete was found yet
-    if ran and (not A["ok"] or b_mis) and not c_fail and tier == "quick":
-        for extra_seed in (seed + 1, seed + 2):
+    if ran and (not A["ok"] or b_mis) and not c_fail:
+        # (same tier, fresh seeds: the budget stays bounded; the thorough tier is the deeper search)
+        for extra_seed in (seed + 1, seed + 2, seed + 3):
             wd2 = os.path.join(WORK, prop, "search%d" % extra_seed)
-            rc, out, dt = harness_run(prop, "thorough", extra_seed, wd2)
+            rc, out, dt = harness_run(prop, tier, extra_seed, wd2)
             if rc == 0:
                 run_driver(os.path.join(wd2, "ops.txt"), os.path.join(wd2, "model.txt"))
                 m2 = json.load(open(os.path.join(wd2, "meta.json")))
